@@ -692,6 +692,13 @@ sqf::runtime::runtime::result sqf::runtime::runtime::execute(sqf::runtime::runti
     {
         while (m_state == state::running);
     }
+    if (m_state == state::empty)
+    { // No run is in progress: the expression is a run of its own, with its own time limit
+      // and without the exit request a previous (aborted) run may have left behind
+        begin_run_if_empty();
+        m_is_exit_requested = false;
+        m_is_halt_requested = false;
+    }
     auto& sqf_parser = parser_sqf();
     auto opt_set = sqf_parser.parse(*this, view, { std::string("__evaluate_expression__.sqf"), {} });
     if (opt_set.has_value())
@@ -713,8 +720,8 @@ sqf::runtime::runtime::result sqf::runtime::runtime::execute(sqf::runtime::runti
                 }
                 auto res = execute_do(*this, 1);
                 m_state = oldstate;
-                if (res == result::runtime_error)
-                { // The expression failed: nothing of it may run any further
+                if (res == result::runtime_error || m_is_exit_requested)
+                { // The expression failed (or asked the VM to exit): nothing of it may run any further
                     failed = true;
                     eval_context->clear_frames();
                     eval_context->clear_values(true);
